@@ -18,7 +18,7 @@ CHECKS = {
             'the constants the validators compare against are fed to the real validators; acceptance implies the '
             'independent classifier calls the string a well-formed answer, and only documented outcomes occur. '
             'Representatives of each invalid class are also served through the real transports, on fresh objects and after an '
-            'earlier well-answered request on the same object (same / other typed command, raw command with the same / other bytes). Session histories include TCP connect outcomes {ok, refused, hang}; a delivered frame must answer the command the caller issued.',
+            'earlier well-answered request on the same object (same / other typed command, raw command with the same / other bytes). Session histories include TCP connect outcomes {ok, refused, hang}; a delivered frame must answer the command the caller issued. Exception answers of every code to write / write-multi; commands built by one protocol object with colliding arguments; frames with stray bytes in front / head missing; untyped AA55 commands.',
             'Trusted: mc/wire.classify_response (written from the statement).  Exhaustive over the stated finite '
             'domain, not over all byte strings; the argument why the grammar reaches every position the validators '
             'read is in DESIGN.md.',
@@ -29,7 +29,7 @@ CHECKS = {
             'bytes on RTU), all 65536 registers x boundary values and all 65536 values x boundary registers for '
             'write echoes, AA55 payload length 0..255 x fill 0..255 per response type must make the real validator '
             'return True; representatives go through the real transports and response_data() must equal the payload; a '
-            'conforming frame must also be accepted after an earlier request lost the remainder of a fragmented answer. Every public call against healthy conforming inverter models of all families must succeed (no conforming answer refused); session histories incl. chained requests: a first transmission answered by a conforming frame needs no second one. Healthy-inverter stage: every public call with keep-alive on/off, in one loop and in one event loop per call.',
+            'conforming frame must also be accepted after an earlier request lost the remainder of a fragmented answer. Every public call against healthy conforming inverter models of all families must succeed (no conforming answer refused); session histories incl. chained requests: a first transmission answered by a conforming frame needs no second one. Healthy-inverter stage: every public call with keep-alive on/off, in one loop and in one event loop per call. Payloads containing the byte strings the transports look for, at every position, through the real transports.',
             'Trusted: frame builders of mc/wire.py.  Uniform and walking-one payloads only (the validators do not read '
             'payload bytes except through the checksum).',
             'DESIGN.md section 3, C02'),
@@ -40,7 +40,7 @@ CHECKS = {
             'space of the Modbus/TCP transaction counter (65534 states and the wrap) is walked completely from the '
             'initial and from near-wrap states; a silent TCP peer must see pairwise different ids on retransmissions; requests '
             'built through read_command / write_command / write_multi_command of 8 coexisting protocol objects (udp, tcp x '
-            '4 addresses), interleaved, decode to the address and arguments of the call that built them. Every command kind (three framings, raw caller frames) is sent through both transports: the bytes on the wire are the command\'s request.',
+            '4 addresses), interleaved, decode to the address and arguments of the call that built them. Every command kind (three framings, raw caller frames) is sent through both transports: the bytes on the wire are the command\'s request. Transaction ids and the unit address on the wire do not follow what the answers carry; mixed overlapping public calls; boundary arguments through the protocol factories.',
             'Trusted: strict parsers of mc/wire.py.  Grids are per-dimension exhaustive, not the full cartesian product.',
             'DESIGN.md section 3, C03'),
     'C04': ('model_checking',
@@ -53,7 +53,7 @@ CHECKS = {
             'object, and after EVERY single-letter earlier request of the alphabet, with and without draining what it left in '
             'flight), and the thorough tier replays 74 traces on real loopback sockets to bind the kernel model to '
             'reality.  This is a coverage statement over all orderings the alphabet can produce, which example tests '
-            'cannot give. TCP configurations with timeouts longer than the 5 s connect bound (T = 8, 6.5; 30 thorough) x connect outcomes.',
+            'cannot give. TCP configurations with timeouts longer than the 5 s connect bound (T = 8, 6.5; 30 thorough) x connect outcomes. Earlier requests that lost their transmission and could not reconnect (refused / unreachable / hang); the socket model validates TCP keep-alive options.',
             'Trusted: kernel model (mc/kernel.py: sockets, selector, virtual clock), CPython 3.12.1 asyncio, the '
             'independent codec mc/wire.py.  Bounded by the alphabet and by depth R+1 (deviation bound for R=3).',
             'DESIGN.md section 3, C04'),
@@ -66,7 +66,7 @@ CHECKS = {
             'after the last.  connect()/discover()/search_inverters() are run for every family, port and '
             '(timeout, retries) of a grid against a silent kernel and a kernel that answers only the first request; '
             'every request they issue must show the configured budget; ordered pairs of entry-point calls with different '
-            '(timeout, retries) in one process state are judged call by call.',
+            '(timeout, retries) in one process state are judged call by call. Histories with lost transmission + failed reconnect; discovery answered by every family\'s serial.',
             'Trusted: kernel model, CPython 3.12.1 asyncio, request boundaries observed by wrapping '
             'ProtocolCommand.execute from the harness.  Bounded by history depth (2 quick / 3 thorough); the '
             'evidence reports in how many configurations the state fixpoint was reached below the bound.',
@@ -91,7 +91,7 @@ CHECKS = {
             'are checked against an oracle that only accepts well-formed frames (independent classifier) made of '
             'data received for the final transmission; cross-request scenarios (a fragment left by an earlier request that ended '
             'with an exception frame, a timeout or a late remainder), a second protocol object active between the two '
-            'pieces, and other callers queueing on the same object while the fragments arrive are included.',
+            'pieces, and other callers queueing on the same object while the fragments arrive are included. Three-datagram negatives; fragmented answers in successive event loops; split Modbus/TCP answers carrying another transaction id.',
             'Trusted: kernel model (stream transport coalesces simultaneous pieces as the real one does), mc/wire.py. '
             'Two fragments only; second-piece alphabet as listed in the evidence.',
             'DESIGN.md section 3, C07'),
@@ -102,7 +102,7 @@ CHECKS = {
             'request must fail with RequestRejectedException carrying the reason text of the Modbus specification, '
             'at the arrival time of the frame, with no further transmission - also when earlier requests (successes, delayed '
             'rejections, fragments, garbage) precede it on the same object; ET callers are run against a device refusing '
-            'blocks with code 2 versus other codes (only code 2 may switch a capability off). Two protocol objects with overlapping requests; histories in which the same exception frame is received twice; chained requests.',
+            'blocks with code 2 versus other codes (only code 2 may switch a capability off). Two protocol objects with overlapping requests; histories in which the same exception frame is received twice; chained requests. Typed request after a raw request with the same bytes; Modbus/TCP exception frames with an unreliable length field.',
             'Trusted: reason table in mc/wire.py (written from the Modbus spec), kernel model.',
             'DESIGN.md section 3, C08'),
     'C09': ('model_checking',
@@ -113,7 +113,7 @@ CHECKS = {
             'handler must stay silent.  (b) BFS with fingerprint de-duplication over success/failure histories up '
             'to length 8 checks consecutive_failures_count against a reference counter.  (c) identification '
             'payloads built from byte classes in every text field go through connect()/discover().  (d) two or three '
-            'overlapping callers on one inverter object x outcomes x start offsets: the count must follow completion order.',
+            'overlapping callers on one inverter object x outcomes x start offsets: the count must follow completion order. Inverter.send_command() as an entry point; event-loop changes inside histories; DT polls with an unanswered optional request (count kept per request); identification texts that parse as version numbers.',
             'Trusted: kernel model, CPython 3.12.1 asyncio.  A rejected request is neither success nor failure for '
             'the counter (both readings accepted).',
             'DESIGN.md section 3, C09'),
@@ -124,7 +124,7 @@ CHECKS = {
             '(open transports <= 1; none open after a request with keep-alive off or after close(); same socket '
             'reused by consecutive successes with keep-alive on) is evaluated at every transmission, connect and '
             'operation boundary, and every history ends with a healthy request that must succeed with one '
-            'transmission; at descriptor level, after garbage collection every open socket must belong to an open transport. History letters: keep-alive toggled between requests, previous loop left open (idle); chained requests. Overlapping callers (C06\'s harness: start offsets x per-transmission letters) are judged for the same clauses.',
+            'transmission; at descriptor level, after garbage collection every open socket must belong to an open transport. History letters: keep-alive toggled between requests, previous loop left open (idle); chained requests. Overlapping callers (C06\'s harness: start offsets x per-transmission letters) are judged for the same clauses. A second object used first in every event loop; overlapping callers again in the next loop; close() raising is an observation.',
             'Trusted: kernel model; transports are observed through is_closing() of the real transport objects the '
             'loop created.  Bounded by history depth 3 (quick) / 4 (thorough).',
             'DESIGN.md section 3, C10'),
@@ -135,7 +135,7 @@ CHECKS = {
             'thorough tier) and decoded through Inverter._map_response; whole-block sentinel fills go through both '
             'Modbus framings; ES answers of every announced length 0..255 go through the real API on the real '
             'transport.  No exception other than ValueError may escape, every id must be present, contents the '
-            'reference decoder calls uninterpretable must be None and must not disturb other values. Polls of configured objects whose register contents change from poll to poll (interpretable / uninterpretable).',
+            'reference decoder calls uninterpretable must be None and must not disturb other values. Polls of configured objects whose register contents change from poll to poll (interpretable / uninterpretable). One settings register refused, every register in turn (ET).',
             'Trusted: reference notion of "uninterpretable" in mc/refdec.py.  Exhaustive over the stated per-field '
             'domains, justified by the non-interference check of C12.',
             'DESIGN.md section 3, C11'),
@@ -146,7 +146,7 @@ CHECKS = {
             'block start addresses and both Modbus framings (Modbus/TCP also with an unreliable MBAP length field: byte count only / 0) and compared with a reference decoder written per type from '
             'the documentation; every other byte of the block is then perturbed and the value must not change; whole tables with '
             'uniform contents are decoded in one process in table order and reverse order (state shared between sensors).  The '
-            'register map itself (id -> type, address, scale, unit) is compared with a pinned copy. End to end: read_runtime_data() / read_sensor() / read_setting() results of configured objects (every model class) equal the documented reading of the device model\'s registers - with debug logging on and off, with a neighbour object of another model class, and while other calls on the same object are pending; the reference decoders agree with the 1310 (sensor, value) pairs the repository tests assert on recorded responses. API session explorer: the poll after every explored history is compared value by value with the fetched registers; two consumers reading the same item at once.',
+            'register map itself (id -> type, address, scale, unit) is compared with a pinned copy. End to end: read_runtime_data() / read_sensor() / read_setting() results of configured objects (every model class) equal the documented reading of the device model\'s registers - with debug logging on and off, with a neighbour object of another model class, and while other calls on the same object are pending; the reference decoders agree with the 1310 (sensor, value) pairs the repository tests assert on recorded responses. API session explorer: the poll after every explored history is compared value by value with the fetched registers; two consumers reading the same item at once. Ids shared by two sensors; every id of a result judged, values must have been fetched by this poll; neighbouring registers holding every combination of small values.',
             'Trusted: mc/refdec.py, the pinned register map mc/data/address_map.json (taken from the tables at the pinned '
             'commit; it stands in for the vendor register documentation).',
             'DESIGN.md section 3, C12'),
@@ -157,7 +157,7 @@ CHECKS = {
             'code words (boundary-grid products for formulas) and compared with its definition over the raw values of the '
             'same result; which documented label table each label sensor uses is pinned; the same relations are evaluated '
             'inside every read_runtime_data() result of configured inverter objects (every tag class x rated powers x '
-            'firmware) polled over a grid of the power words and their neighbours. The relations are also evaluated inside read_runtime_data() results of configured objects (with neighbour objects), and every formula with the other registers of the block holding uniform small codes. API session explorer: the relations are checked on the poll after every explored history.',
+            'firmware) polled over a grid of the power words and their neighbours. The relations are also evaluated inside read_runtime_data() results of configured objects (with neighbour objects), and every formula with the other registers of the block holding uniform small codes. API session explorer: the relations are checked on the poll after every explored history. Label/code pairs found structurally; API stage over Modbus/TCP and keep-alive; small values in the registers of the other blocks.',
             'Trusted: formulas written from the table comments / property text in mc/checks/c13.py, pinned label tables '
             'mc/data/labels.json.  One genuine defect is recorded as a known finding (EnumBitmap22).',
             'DESIGN.md section 3, C13'),
@@ -167,7 +167,7 @@ CHECKS = {
             'read_runtime_data() runs against the device model while every ProtocolResponse.read is observed '
             '(position, requested, returned); every read must return exactly the bytes requested.  The same is computed '
             'statically (documented sensor span versus the window of the request that fetched it) and both must agree; over '
-            'tcp the device model also answers with unreliable MBAP length fields (byte count, 0, 6, +7). Second model detection on the same object (failing, partly lost, repeated). API session explorer (poll after every history); one request of a later poll rejected with codes 1/4/6 at every position; two overlapping polls with the second started after every request position of the first.',
+            'tcp the device model also answers with unreliable MBAP length fields (byte count, 0, 6, +7). Second model detection on the same object (failing, partly lost, repeated). API session explorer (poll after every history); one request of a later poll rejected with codes 1/4/6 at every position; two overlapping polls with the second started after every request position of the first. Single reads before/after a poll on inverters that refuse only block reads; firmware version words swept; every register at a boundary word.',
             'Trusted: device model answers with exact-length frames; documented type sizes of mc/refdec.py.  Two sensors '
             'of the MPPT block are recorded as known findings.',
             'DESIGN.md section 3, C14'),
@@ -177,7 +177,7 @@ CHECKS = {
             'optional blocks x battery present/absent x three consecutive calls, over UDP and a reduced product over TCP: '
             'read_runtime_data() must succeed by the second call, its keys must equal the ids of sensors() right after '
             'the call, fetched blocks must be present and refused blocks absent; the device also checks that every '
-            'request parses strictly and that no write function is sent. With an unchanged device every returning call reports the same ids. Differential clause: sensors of blocks the inverter serves stay present when other blocks are refused (same model refusing nothing).',
+            'request parses strictly and that no write function is sent. With an unchanged device every returning call reports the same ids. Differential clause: sensors of blocks the inverter serves stay present when other blocks are refused (same model refusing nothing). Model classes pinned by serial tag (mc/data/model_tags.json); refusal of exact block reads (every 1- and 2-subset); firmware version words and battery-mode values swept.',
             'Trusted: device model mc/devsim.py (refused ranges answer exception 2).',
             'DESIGN.md section 3, C15'),
     'C16': ('model_checking',
@@ -185,7 +185,7 @@ CHECKS = {
             'For representative models of every predicate class and several register-file fills, after every history of '
             'runtime reads, single reads and device changes (battery appears/disappears, blocks become refused) up to the '
             'depth bound, read_sensor(id) is called for every id of sensors() and compared with the bulk read of the '
-            'unchanged registers; a listed id that the bulk read reports must never be unknown to read_sensor. Histories include device changes no poll has noticed yet and changing register contents between polls.',
+            'unchanged registers; a listed id that the bulk read reports must never be unknown to read_sensor. Histories include device changes no poll has noticed yet and changing register contents between polls. Registers becoming healthy after being undecodable; another object of the family (other transport) reads every id first.',
             'Trusted: device model; register file static between single and bulk read.  Sensors without a single-read '
             'path (Calculated, EnumCalculated, EnumBitmap22) are recorded as known findings.',
             'DESIGN.md section 3, C16'),
@@ -197,7 +197,7 @@ CHECKS = {
             'model\'s write log and register-file diff must show exactly one write of the right function to exactly the '
             'setting\'s registers carrying the reference encoding, every other register (including the other half of a '
             'shared register) unchanged, and the read-back must equal the value; one setting per type is also written with '
-            'keep-alive on/off, a slow inverter (latency up to 0.9 timeout) and one request answered with an exception. The identical write repeated; two overlapping writes; writes after a read whose answer lost its tail (every head length).',
+            'keep-alive on/off, a slow inverter (latency up to 0.9 timeout) and one request answered with an exception. The identical write repeated; two overlapping writes; writes after a read whose answer lost its tail (every head length). Inverters that store another value and echo it; a latency spike on one request (Modbus/TCP); two objects writing at once (C20\'s harness).',
             'Trusted: device model, reference encoders of mc/refdec.py.  Sentinel encodings (0xFFFF..) are outside the domain.',
             'DESIGN.md section 3, C17'),
     'C18': ('model_checking',
@@ -207,7 +207,7 @@ CHECKS = {
             'work modes, plus connect()/discover(): the device model must see only read functions.  Every integer '
             'argument in wide windows round each setter guard and near-miss setting ids must transmit no write (and '
             'raise ValueError where documented); in-range arguments are checked to produce writes (vacuity guard); over '
-            'Modbus/TCP with one retry, [setter, monitoring call] with every connection attempt refused once. Ids no longer listed by settings() must not be writable; invalid calls after every legal setter and monitoring call; raw register ids over the whole range; connect refusal between setter and reader.',
+            'Modbus/TCP with one retry, [setter, monitoring call] with every connection attempt refused once. Ids no longer listed by settings() must not be writable; invalid calls after every legal setter and monitoring call; raw register ids over the whole range; connect refusal between setter and reader. Keyword as well as positional arguments; arguments that wrap into range when cut to 8/16/32 bits; monitoring calls on a silent inverter.',
             'Trusted: device model request log (strict parser).',
             'DESIGN.md section 3, C18'),
     'C19': ('model_checking',
@@ -217,7 +217,7 @@ CHECKS = {
             'every prior content of eco group 1 (all schedule types, undecodable) x ET {v1, v2, no peak shaving, 745} and '
             'ES {arm 6, arm 14, v2}, plus every ordered pair of modes; getter must return the mode set, group 1 must '
             'decode to the request and groups 2-4 be off; export limit and DoD round trips; every setter x every request '
-            'position answered with a Modbus exception (codes 1/3/4/6): a setter that reports success agrees with its getter. Getter before setter on an inverter in ECO mode; the same setter call again after a foreign change.',
+            'position answered with a Modbus exception (codes 1/3/4/6): a setter that reports success agrees with its getter. Getter before setter on an inverter in ECO mode; the same setter call again after a foreign change. Another object reads its group between setter and getter; the setters do not disturb each other; groups 2..4 holding enabled schedules of other kinds.',
             'Trusted: device model links listed in the evidence; interpretation (i)-(iv) of DESIGN.md C19.',
             'DESIGN.md section 3, C19'),
     'C20': ('model_checking',
@@ -227,7 +227,7 @@ CHECKS = {
             'register contents on one real event loop; whenever both wait for an answer the explorer chooses whose answer '
             'is delivered first (deviation-bounded from FIFO).  Each object must send the same requests and return the same '
             'results as when its calls run alone, and every value handed to the caller is re-snapshotted at the end and '
-            'must be unchanged. The two inverters of a pair report a valid and an undecodable clock. Pairs of inverters whose registers hold equal raw values (different decoders meet equal words).',
+            'must be unchanged. The two inverters of a pair report a valid and an undecodable clock. Pairs of inverters whose registers hold equal raw values (different decoders meet equal words). Long-lived pairs with one event loop per step; equal serial numbers; never-programmed groups next to a 745 inverter.',
             'Trusted: device models, gate in mc/checks/c20.py (answers are released only when every task is blocked). '
             'Shared stateful schedule sensors are recorded as known findings.',
             'DESIGN.md section 3, C20'),
